@@ -368,6 +368,8 @@ def main_check(modname, tier, replay=None, seed=None, cases=None, selftest=False
         # unknown: shrink and report (at most 5 distinct replays per run)
         if nrep >= 5:
             n_new += 1
+            log(f"[violation-group] class={v['class']} signature={jdump(v.get('signature', {}))} "
+                f"detail={jdump(v.get('detail', {}))[:300]} (x{len(groups[key])} raw, not minimised: replay limit)")
             continue
         case = rv["case"]
         small = shrink_case(mod, case, v["class"], budget_s=cfg.get("shrink_budget", 60.0),
